@@ -89,7 +89,18 @@ def ref_normal_form(ref: str, consts, defs: dict[str, str] | None = None) -> Rat
 
 
 def opaque_atoms(r: Rat) -> set[str]:
-    return {a for a in r.atoms() if not re.fullmatch(r'[A-Za-z_][\w.]*', a)}
+    """atoms that are applications of functions the algebra does not open (exp, log, non-integer powers, ...) or
+    conditional expressions; names, attribute chains and subscripts (`ff_cal[ThrustMode.IDLE]`) are symbols"""
+    from .algebra import ATOM_PARTS
+    return {a for a in r.atoms() if a in ATOM_PARTS or (not re.fullmatch(r'[A-Za-z_][\w.]*', a) and not _is_subscript_symbol(a))}
+
+
+def _is_subscript_symbol(a: str) -> bool:
+    try:
+        e = ast.parse(a, mode='eval').body
+    except SyntaxError:
+        return False
+    return isinstance(e, ast.Subscript) and not any(isinstance(x, (ast.Call, ast.IfExp, ast.Lambda, ast.BinOp)) for x in ast.walk(e))
 
 
 def compare(code: Rat, ref: Rat) -> tuple[str, str]:
@@ -161,3 +172,108 @@ def compare2(code: Rat, ref: Rat) -> tuple[str, str]:
     if heads(code) == heads(ref):
         return 'different', f'code − reference = {str(code - ref)[:220]}'
     return 'undecided', f'structure differs: code uses {heads(code)}, reference {heads(ref)}'
+
+
+def explain_difference(code: Rat, ref: Rat, named: dict[str, Rat] | None = None, depth: int = 0):
+    """Where two normal forms part, as deep inside their opaque sub-expressions as the difference can be pinned:
+    None when they are equal, else (name of the reference sub-expression or None, explanation, decided).  An
+    application of a function that occurs on one side only is paired with the one application of the same function that
+    occurs on the other side only; when exactly one argument differs the search continues inside it.  `named`: normal
+    forms of the reference's named sub-expressions, used to say which of them the difference is in.  `decided` is False
+    when, at the place found, the two sides are built from different functions (a restructuring the algebra cannot see
+    through) - except that a rational function of the symbols is never equal to one with exp / log / powers of them."""
+    from .algebra import ATOM_PARTS, _same_arg
+    if poly_equal(code, ref):
+        return None
+
+    def name_of(r):
+        for k, v in (named or {}).items():
+            if poly_equal(r, v):
+                return k
+        return None
+    parts = lambda a: ATOM_PARTS.get(a, (None, [], ()))
+    only_c, only_r = opaque_atoms(code) - opaque_atoms(ref), opaque_atoms(ref) - opaque_atoms(code)
+    if depth < 12:
+        for a in sorted(only_c):
+            ha, aa, ka = parts(a)
+            same_f = [b for b in only_r if parts(b)[0] == ha and len(parts(b)[1]) == len(aa) and parts(b)[2] == ka]
+            mine = [x for x in only_c if parts(x)[0] == ha]
+            if ha is None or len(same_f) != 1 or len(mine) != 1:
+                continue
+            pairs = [(x, y) for x, y in zip(aa, parts(same_f[0])[1]) if not _same_arg(x, y)]
+            if len(pairs) == 1 and isinstance(pairs[0][0], Rat) and isinstance(pairs[0][1], Rat):
+                inner = explain_difference(pairs[0][0], pairs[0][1], named, depth + 1)
+                if inner is not None:
+                    if inner[0] is None:
+                        return name_of(ref), f'inside {ha}(…): {inner[1]}', inner[2]
+                    return inner
+    if heads(code) != heads(ref):
+        if not heads(code):
+            return name_of(ref), f'the code has none of the {heads(ref)} terms of the reference: code = {str(code)[:120]}', True
+        # the same formula but for the base of a logarithm / exponential: log(u) = ln10·log10(u) and exp(y) = 10**(y/ln10)
+        # are different functions wherever the formula depends on them at all
+        for what, swap in (('the natural logarithm where the cited equation has log10', _log_to_log10),
+                           ('log10 where the cited equation has the natural logarithm', _log10_to_log),
+                           ('exp(…) where the cited equation has 10 ** (…)', _exp_to_pow10),
+                           ('10 ** (…) where the cited equation has exp(…)', _pow10_to_exp)):
+            alt = _map_atoms(code, swap)
+            if alt is not None and poly_equal(alt, ref):
+                return name_of(ref), f'the code uses {what} (otherwise the same formula)', True
+        return name_of(ref), f'structure differs: code uses {heads(code)}, reference {heads(ref)}', False
+    return name_of(ref), f'code − reference = {str(code - ref)[:220]}', True
+
+
+def _map_atoms(r: Rat, f) -> Rat | None:
+    """r with every opaque atom a replaced by f(head, args, kws) (a Rat, or None to keep a); None if nothing changed"""
+    from .algebra import ATOM_PARTS, _p_atom
+    changed = False
+    cache = {}
+
+    def atom(a):
+        nonlocal changed
+        if a not in cache:
+            new = None
+            if a in ATOM_PARTS:
+                h, args, kws = ATOM_PARTS[a]
+                args2 = [(_map_atoms(x, f) or x) if isinstance(x, Rat) else x for x in args]
+                new = f(h, args2, kws)
+            changed = changed or new is not None
+            cache[a] = new if new is not None else Rat(_p_atom(a))
+        return cache[a]
+
+    def poly(p_):
+        out = Rat({})
+        for mono, c in p_.items():
+            term = Rat({(): c})
+            for a, e in mono:
+                base = atom(a)
+                for _ in range(e):
+                    term = term * base
+            out = out + term
+        return out
+    num, den = poly(r.num), poly(r.den)
+    if not changed or den.is_zero():
+        return None
+    return num / den
+
+
+def _log_to_log10(h, args, kws):
+    from .algebra import opaque_atom
+    return opaque_atom('log10', args, kws) if h == 'log' and len(args) == 1 else None
+
+
+def _log10_to_log(h, args, kws):
+    from .algebra import opaque_atom
+    return opaque_atom('log', args, kws) if h == 'log10' and len(args) == 1 else None
+
+
+def _exp_to_pow10(h, args, kws):
+    from .algebra import opaque_atom, _p_const
+    return opaque_atom('pow', [Rat(_p_const(10)), args[0]]) if h == 'exp' and len(args) == 1 and isinstance(args[0], Rat) else None
+
+
+def _pow10_to_exp(h, args, kws):
+    from .algebra import opaque_atom
+    if h == 'pow' and len(args) == 2 and isinstance(args[0], Rat) and args[0].is_const() and args[0].const() == 10:
+        return opaque_atom('exp', [args[1]])
+    return None
